@@ -42,6 +42,8 @@ type batchCase struct {
 	ReleaseAtMS   int   `json:"release_at_ms,omitempty"`
 	// CellBlocks: the servers answer through cellblocks instead of protobuf cells
 	CellBlocks bool `json:"cellblocks,omitempty"`
+	// Snappy: cellblocks are compressed in both directions
+	Snappy bool `json:"snappy,omitempty"`
 }
 
 type batchObs struct {
@@ -92,7 +94,11 @@ func batchExec(c batchCase) batchObs {
 				}
 			}
 		}
-		client := newSimClient(cl, gohbase.RpcQueueSize(c.QueueSize), gohbase.FlushInterval(time.Duration(c.FlushMS)*time.Millisecond))
+		copts := []gohbase.Option{gohbase.RpcQueueSize(c.QueueSize), gohbase.FlushInterval(time.Duration(c.FlushMS) * time.Millisecond)}
+		if c.Snappy {
+			copts = append(copts, gohbase.CompressionCodec("snappy"))
+		}
+		client := newSimClient(cl, copts...)
 		ctx, cancel := context.WithCancel(context.Background())
 		defer cancel()
 		own := map[int]bool{}
@@ -376,6 +382,7 @@ func c07Gen(t *rapid.T) batchCase {
 	c.FlushMS = rapid.SampledFrom([]int{0, 1, 20}).Draw(t, "flush")
 	c.Tape = rapid.SliceOfN(rapid.Byte(), 0, 8).Draw(t, "tape")
 	c.CellBlocks = rapid.Bool().Draw(t, "cellblocks")
+	c.Snappy = c.CellBlocks && rapid.Bool().Draw(t, "snappy")
 	n := 0
 	nb := rapid.IntRange(1, 12).Draw(t, "nbatch")
 	for i := 0; i < nb; i++ {
@@ -568,6 +575,7 @@ func c12Gen(t *rapid.T) batchCase {
 	c.FlushMS = rapid.SampledFrom([]int{0, 1, 20}).Draw(t, "flush")
 	c.Tape = rapid.SliceOfN(rapid.Byte(), 0, 8).Draw(t, "tape")
 	c.CellBlocks = rapid.Bool().Draw(t, "cellblocks")
+	c.Snappy = c.CellBlocks && rapid.Bool().Draw(t, "snappy")
 	c.CancelAtMS = -1
 	n := 0
 	nb := rapid.IntRange(1, 16).Draw(t, "nbatch")
